@@ -145,6 +145,7 @@ type execResult struct {
 	Equiv    string
 	Mismatch string
 	WF       bool
+	Unref    []string // objects of the reached vsys nothing mentions (Lean: unreferenced)
 	Tree     panos.VerifVsys
 	Raw      string
 }
@@ -176,6 +177,10 @@ func (c *checker) exec(shared []string, v panos.VerifVsys, cmds []string, t *pan
 			r.Mismatch = val
 		case "wf":
 			r.WF = val == "1"
+		case "unref":
+			for _, n := range splitNE(val, ",") {
+				r.Unref = append(r.Unref, dec(n))
+			}
 		}
 	}
 	tv2, err := decVsys(tree)
@@ -330,7 +335,7 @@ func propOf(symptom string) string {
 		return "C08"
 	case "outside_targeted_vsys":
 		return "C07"
-	case "resume_refused", "resume_not_equivalent", "resume_second_plan_not_empty", "resume_state_not_wellformed":
+	case "resume_refused", "resume_not_equivalent", "resume_second_plan_not_empty", "resume_state_not_wellformed", "resume_leaves_unreferenced_objects":
 		return "C10"
 	case "refused_not_converged":
 		return "C03"
@@ -676,6 +681,11 @@ func (c *checker) runCase(in caseInput, deep bool) (devVsys []panos.VerifVsys, r
 			if r.Equiv != "1" {
 				report("empty_plan_not_equivalent",
 					"no change is reported although the device vsys "+name+" is not equivalent to the target", obs)
+			} else if len(r.Unref) > 0 {
+				report("unreferenced_objects_left",
+					"no change is reported for vsys "+name+" although it holds objects that nothing mentions (a completed approve removes them): "+strings.Join(r.Unref, ", "), obs)
+			} else {
+				res.Count("oracle:nothing-left-behind")
 			}
 			continue
 		}
@@ -712,6 +722,13 @@ func (c *checker) runCase(in caseInput, deep bool) (devVsys []panos.VerifVsys, r
 		} else {
 			res.Count("oracle:converged")
 			reached[name] = r.Tree
+			// a completed approve leaves nothing behind that no rule and no group mentions
+			if len(r.Unref) > 0 {
+				report("unreferenced_objects_left",
+					"after executing all requests the vsys "+name+" still holds objects that nothing mentions: "+strings.Join(r.Unref, ", "), obs)
+			} else {
+				res.Count("oracle:nothing-left-behind")
+			}
 			// second plan on the reached state: judged whether or not the model agrees with it
 			d2, s2 := renderPair(r.Tree, b)
 			p2 := planReal(d2, s2, "", "")
@@ -853,6 +870,12 @@ func (c *checker) resume(in caseInput, name string, a, b panos.VerifVsys, cmds [
 		if rk.Equiv != "1" {
 			report("resume_not_equivalent", what+": the second run does not reach a vsys equivalent to the target ("+rk.Mismatch+")", obs)
 			continue
+		}
+		if len(rk.Unref) > 0 {
+			report("resume_leaves_unreferenced_objects", what+": the second run (requests: "+strings.Join(perk[name], ";")+
+				") is accepted and the rules are equivalent, but objects that nothing mentions stay on the device: "+strings.Join(rk.Unref, ", "), obs)
+		} else {
+			res.Count("resume:nothing-left-behind")
 		}
 		d3, s3 := renderPair(rk.Tree, b)
 		p3 := planReal(d3, s3, "", "")
